@@ -27,7 +27,7 @@ NAMES = ["a.txt", "dir/b.bin", "dir/sub/c", "üñí/日本.txt", "\U0001F600.bin
 SIZES = [0, 1, 2, 15, 16, 17, 31, 32, 33, 100, 1000, 4095, 4096, 4097, 20000]
 
 
-GEN_DEPS = ["write_uint64", "write_uint32", "write_real_uint64", "write_boolean", "write_crcs", "write_bytes", "write_byte", "PackInfo.__init__", "PackInfo.write", "Coder", "Bond.__init__", "Folder.__init__", "Folder.is_simple", "Folder.write", "UnpackInfo.__init__", "UnpackInfo.write", "SubstreamsInfo.__init__", "SubstreamsInfo.write", "StreamsInfo.__init__", "StreamsInfo.write", "write_utf16", "FileEntry", "FilesInfo.__init__", "FilesInfo._are_there", "FilesInfo._write_names", "FilesInfo._write_attributes", "FilesInfo._write_times[creationtime]", "FilesInfo._write_times[lastaccesstime]", "FilesInfo._write_times[lastwritetime]", "FilesInfo.write", "calculate_crc32", "SignatureHeader.__init__", "SignatureHeader.calccrc", "SignatureHeader.write", "SignatureHeader._write_skeleton"]
+GEN_DEPS = ["write_uint64", "write_uint32", "write_real_uint64", "write_boolean", "write_crcs", "write_bytes", "write_byte", "PackInfo.__init__", "PackInfo.write", "Coder", "Bond.__init__", "Folder.__init__", "Folder.is_simple", "Folder.write", "UnpackInfo.__init__", "UnpackInfo.write", "SubstreamsInfo.__init__", "SubstreamsInfo.write", "StreamsInfo.__init__", "StreamsInfo.write", "write_utf16", "FileEntry", "FilesInfo.__init__", "FilesInfo._are_there", "FilesInfo._write_names", "FilesInfo._write_attributes", "FilesInfo._write_times[creationtime]", "FilesInfo._write_times[lastaccesstime]", "FilesInfo._write_times[lastwritetime]", "FilesInfo.write", "calculate_crc32", "SignatureHeader.__init__", "SignatureHeader.calccrc", "SignatureHeader.write", "SignatureHeader._write_skeleton", "HeaderStreamsInfo", "HeaderStreamsInfo.write"]
 
 def gen_members(rng, n=None):
     """a session: (name, bytes) entries; bytes None = a directory entry (a session may consist of directories only)"""
